@@ -13,6 +13,7 @@ import numpy as np
 from rv import core, zoo, monitors
 
 LEVEL = 'exploration'
+LEVEL_TEXT = 'Ground-truth oracle on synthetic bead samples (known partition and law) for the whole calibration workflow in two containers, plus permutation/reseed metamorphic runs and multi-channel reordered conversion; failures inside the documented equal-count-seeding mechanism are a listed known finding, everything outside it must hold strictly. Exploration: reach comes from sample diversity, not enumeration.'
 TECHNIQUE = 'runtime contract on the calibration workflow with ground-truth oracle (known partition and law) + permutation/reseed metamorphic runs'
 RULE = ('synthetic bead samples: 6..8 subpopulations, adjacent brightness ratio in [2.5,4], CV 2..5%, 200..800 events '
         'each (balanced: one size +-10%; unbalanced: independent sizes), random event order, slope in [0.9,1.2], intercept '
